@@ -114,6 +114,23 @@ func programs(k cs) (pconst, pdyn string, ok bool) {
 		pdyn = fmt.Sprintf("package main\n\nfunc main(p bool, q bool) %s {\n\treturn !p\n}\n", R)
 		return pconst, pdyn, true
 	}
+	if k.Consumer == "kconst" || k.Consumer == "kzero" {
+		// the folded value re-enters the program as a typed package-level constant, next to the literal 0
+		if isCmp(k.Op) {
+			return "", "", false
+		}
+		db := "v[0]"
+		if k.Op == "<<" || k.Op == ">>" {
+			db = lb
+		}
+		body := "\tif %s == 0 {\n\t\treturn %s\n\t}\n\treturn %s + %s\n"
+		if k.Consumer == "kzero" {
+			body = "\tr := %[3]s + %[4]s\n\tif %[1]s == 0 {\n\t\treturn 0\n\t}\n\treturn r\n"
+		}
+		pconst = fmt.Sprintf("package main\n\nconst K %s = %s\n\nfunc main(x %s, y %s) %s {\n"+body+"}\n", T, opExpr(k.Op, la, lb), T, T, T, "x", "K", "K", "x")
+		pdyn = fmt.Sprintf("package main\n\nfunc main(p %s, v [3]%s) %s {\n\tk := %s\n"+body+"}\n", T, T, T, opExpr(k.Op, "p", db), "v[1]", "k", "k", "v[1]")
+		return pconst, pdyn, true
+	}
 	ce, R := consume(opExpr(k.Op, la, lb), k.Consumer, T, isCmp(k.Op))
 	if ce == "" {
 		return "", "", false
@@ -205,7 +222,7 @@ func runCase(ctx *runner.Ctx, k cs) {
 	for _, m := range mnemonics[k.Op] {
 		for _, line := range strings.Split(cc.ssa, "\n") {
 			f := strings.Fields(line)
-			if len(f) > 0 && f[0] == m && !(k.Consumer == "add" && (m == "iadd" || m == "uadd") && strings.Count(cc.ssa, m) == 1) &&
+			if len(f) > 0 && f[0] == m && !((k.Consumer == "add" || k.Consumer == "kconst" || k.Consumer == "kzero") && (m == "iadd" || m == "uadd") && strings.Count(cc.ssa, m) == 1) &&
 				!(k.Consumer == "div" && (m == "idiv" || m == "udiv") && strings.Count(cc.ssa, m) == 1) &&
 				!(k.Consumer == "lt" && (m == "ilt" || m == "ult") && strings.Count(cc.ssa, m) == 1) &&
 				!(k.Consumer == "shr" && (m == "rshift" || m == "srshift") && strings.Count(cc.ssa, m) == 1) {
@@ -306,6 +323,12 @@ func work(ctx *runner.Ctx) {
 						}
 						if quick {
 							consumers = consumers[:2]
+						}
+						if !isCmp(op) {
+							consumers = append(consumers, "kconst")
+							if !quick {
+								consumers = append(consumers, "kzero")
+							}
 						}
 						for _, c := range consumers {
 							cases = append(cases, cs{Op: op, Signed: signed, W: w, A: a.String(), B: b.String(), Consumer: c})
